@@ -424,3 +424,39 @@ package collection
 //@   opaque newTimingWheelWithClock, Errorf, NewTicker
 //@   ensures [invalid-refused] interval <= 0 || numSlots <= 0 || execute == nil ==> result0 == nil && result1 != nil && calls(newTimingWheelWithClock) == 0
 //@   ensures [valid-built] interval > 0 && numSlots > 0 && execute != nil ==> calls(newTimingWheelWithClock) == 1 && arg(newTimingWheelWithClock, 0) == interval && arg(newTimingWheelWithClock, 1) == numSlots && arg(newTimingWheelWithClock, 2) == execute && result0 == ret(newTimingWheelWithClock, 0) && calls(timex.NewTicker, interval) == 1
+
+// ---------------- Cache: the remaining entry points and the wiring (C17) ----------------
+//@ func (*Cache).Get
+//@   prop C17
+//@   opaque doGet, IncrHit, IncrMiss
+//@   requires c != nil
+//@   ensures [what-doGet-found] calls(c.doGet, key) == 1 && result0 == ret(doGet, 0) && result1 == ret(doGet, 1)
+//@ func (*Cache).Set
+//@   prop C17
+//@   opaque SetWithExpire
+//@   requires c != nil
+//@   ensures [with-the-configured-expiry] calls(c.SetWithExpire, key, value, c.expire) == 1
+// Expiry wiring: deviation 5%, a one-second wheel, and the wheel's callback deletes the expired key from the cache.
+//@ func NewCache
+//@   prop C17
+//@   opaque NewSingleFlight, NewUnstable, newCacheStat, NewTimingWheel
+//@   loop 1 invariant -1 <= rangeindex
+//@   ensures [five-percent-jitter] calls(mathx.NewUnstable, 0.05) == 1
+//@   ensures [one-second-wheel] calls(NewTimingWheel) == 1 && arg(NewTimingWheel, 0) == 1000000000 && arg(NewTimingWheel, 1) == 300
+//@   ensures [wheel-error-returned] ret(NewTimingWheel, 1) != nil ==> result0 == nil && result1 == ret(NewTimingWheel, 1)
+//@   ensures [built] ret(NewTimingWheel, 1) == nil ==> result1 == nil && result0 != nil && result0.timingWheel == ret(NewTimingWheel, 0) && result0.expire == expire && result0.data != nil && captured(arg(NewTimingWheel, 2), ptr(Cache)) != nil
+//@ func NewCache$1
+//@   prop C17
+//@   opaque Del
+//@   ensures [expired-key-deleted] typeis(key, string) ==> calls(cache.Del, unbox(key, string)) == 1
+//@   ensures [foreign-key-ignored] !typeis(key, string) ==> calls(Del) == 0
+// WithLimit: a positive limit installs the LRU with that limit and the cache's own eviction callback.
+//@ func WithLimit$1
+//@   prop C17
+//@   opaque newKeyLru
+//@   requires cache != nil
+//@   ensures [lru-installed] limit > 0 ==> calls(newKeyLru) == 1 && arg(newKeyLru, 0) == limit && typeis(cache.lruCache, ptr(keyLru)) && unbox(cache.lruCache, ptr(keyLru)) == ret(newKeyLru)
+//@   ensures [no-limit-no-lru] limit <= 0 ==> cache.lruCache == old(cache.lruCache) && calls(newKeyLru) == 0
+//@ func newKeyLru
+//@   prop C17
+//@   ensures [empty-lru] result != nil && fresh(result) && result.limit == limit && result.onEvict == onEvict && result.elements != nil && result.evicts != nil && forallk(s, string, !has(result.elements, s))
